@@ -166,7 +166,8 @@ def run_case(case, drv):
         idx = sorted(set([int(i) for i in np.nonzero(B.feasible)[0][:2]] + [int(i) for i in np.nonzero(~B.feasible)[0][:3]]
                          + [(7 * n + 3) % len(B.X), len(B.X) - 1]))
         xs = [[int(t) for t in B.X[i]] for i in idx]
-        rep = drv.ask(f"{form}.tf {FU.inst_tokens(o, form)} {len(xs)} " + " ".join(f"{n} " + " ".join(map(str, x)) for x in xs))
+        tm = FU.var_order(drv, o, form)      # (vectors go to the model in the model's variable numbering)
+        rep = drv.ask(f"{form}.tf {FU.inst_tokens(o, form)} {len(xs)} " + " ".join(f"{n} " + " ".join(map(str, FU.vec_to_model(tm, x))) for x in xs))
         head, groups = core.split_reply(rep)
         if head != "ok":
             res.disagree("test_feasibility status", "ok", rep[:80])
